@@ -266,6 +266,8 @@ const smtPrelude = `(set-option :produce-models true)
 (declare-fun strlen (Str) Int)
 (declare-fun typetag (Int) Int)
 (declare-fun str.empty () Str)
+(define-fun hint ((b Bool)) Bool b)
+(define-fun hintg ((b Bool)) Bool true)
 (assert (= (strlen str.empty) 0))
 (assert (forall ((s Str)) (! (and (>= (strlen s) 0) (=> (= (strlen s) 0) (= s str.empty))) :pattern ((strlen s)))))
 `
